@@ -26,6 +26,7 @@ RULE = ("one run = 1-10 simulated terminals (input/output sizes 0..max, read-wri
         "groups exceed one frame; distinct = distinct event-log digests; non-trivial = a "
         "group with at least two terminals cycled at least twice")
 RULE += '; since the 4th session also: the master connected again with live groups, a restart that is rejected (oversized direct terminal) and then repeated, one more group started after a restart'
+RULE += "; also one cyclic frame of the stopped run that comes back after the restart, and a terminal silent while a group's FMMUs are configured (the groups started afterwards are judged)"
 COMPONENTS = {
     "real": ["ebpfcat.ebpfcat.SyncGroupBase.allocate/map_fmmu/run", "EBPFTerminal.allocate",
              "ebpfcat.terminals.AerotechBase.allocate", "SterilePacket.append/append_fmmu",
